@@ -1,6 +1,7 @@
 //! Verification harness: runs the real implementation (path dependency on /repo)
 //! and prints canonical observations. One sub-command per engine.
 mod ast;
+mod frags;
 mod sat;
 mod tables;
 mod tap;
@@ -16,6 +17,7 @@ fn main() {
     match args[1].as_str() {
         "tables" => tables::run(&args[2..]),
         "sat" => sat::run(&args[2..]),
+        "frags" => frags::run(&args[2..]),
         "tap" => tap::run(&args[2..]),
         other => {
             eprintln!("unknown engine {}", other);
